@@ -196,20 +196,20 @@ class Milestone(Spec):
     file = F
     qualname = "OverwriteableFileConsumer._update_downloaded"
     level = "B"
-    bound = "0..2 recorded intervals (heap order), one pending milestone"
+    bound = "0..2 recorded intervals (heap order), one or two reads waiting for the same milestone"
     cross_check = 0
     raises = ()
-    canary_case = {"n": 1}
+    canary_case = {"n": 1, "waiters": 2}
 
     def inputs(self):
-        return {"n": ChoiceK([0, 1, 2]), "nd": IntK(0), "m": IntK(0), "ds": IntK(0), "s0": IntK(0), "e0": IntK(0), "s1": IntK(0), "e1": IntK(0)}
+        return {"n": ChoiceK([0, 1, 2]), "waiters": ChoiceK([1, 2]), "nd": IntK(0), "m": IntK(1), "ds": IntK(0), "s0": IntK(0), "e0": IntK(0), "s1": IntK(0), "e1": IntK(0)}
 
     def all_cases(self):
-        return [{"n": n} for n in (0, 1, 2)]
+        return [{"n": n, "waiters": w} for n in (0, 1, 2) for w in (1, 2)]
 
     def requires(self, I, a):
         iv = [(Z(a["s%d" % i]), Z(a["e%d" % i])) for i in range(a["n"])]
-        cs = [z3.And(s <= e) for (s, e) in iv]
+        cs = [z3.And(s <= e) for (s, e) in iv] + [Z(a["m"]) >= 1]
         if len(iv) == 2:
             cs.append(z3.Or(iv[0][0] < iv[1][0], z3.And(iv[0][0] == iv[1][0], iv[0][1] <= iv[1][1])))
         return z3.And(cs) if cs else z3.BoolVal(True)
@@ -218,13 +218,18 @@ class Milestone(Spec):
         me = self
         o = dict(NOISY)
         o["OverwriteableFileConsumer.download_done"] = lambda I, a, kw: me._done.append(a[1])
+        from pyvc.models_tahoe import DStub
+        o["defer.Deferred"] = lambda I, a, kw: DStub("pending")
+        o["twisted.internet.defer.Deferred"] = o["defer.Deferred"]
         o["sftpd.eventually_callback"] = lambda I, a, kw: __import__("pyvc.interp", fromlist=["ModelFn"]).ModelFn("cb", lambda I_, a_, k_: me._fired.append(a[0]))
         return {"overrides": o}
 
     def run(self, I, a):
         self._done, self._fired = [], []
         ow = [(a["s%d" % i], a["e%d" % i]) for i in range(a["n"])]
-        c = SObj(self.module().OverwriteableFileConsumer, {"download_size": a["ds"], "downloaded": 0, "milestones": [(a["m"], "deferred")], "overwrites": ow})
+        c = SObj(self.module().OverwriteableFileConsumer, {"download_size": a["ds"], "downloaded": 0, "milestones": [], "_milestone_serial": 0, "overwrites": ow, "done_status": None})
+        # the waiters register through the real method (several reads may wait for the same offset, e.g. two reads clipped at EOF)
+        self._waiters = [I.call_value(I.get_attr(c, "when_reached_or_failed"), [a["m"]], {}) for _ in range(a["waiters"])]
         I.call_value(self.target(I), [c, a["nd"]], {})
         return c
 
@@ -234,6 +239,7 @@ class Milestone(Spec):
         p = z3.Int("p!m")
         all_cov = z3.ForAll([p], z3.Implies(z3.And(p >= 0, p < m), covered(p, nd, iv)))
         g = [("downloaded-is-recorded", Z(out.value.fields["downloaded"]) == nd)]
+        g.append(("every-waiter-of-one-offset-is-woken-together-or-none-is", z3.BoolVal(len(self._fired) in (0, a["waiters"]) and all(any(f is w for w in self._waiters) for f in self._fired))))
         if self._fired:
             g.append(("a-milestone-fires-only-when-everything-below-it-is-downloaded-or-overwritten", all_cov))
         else:
